@@ -1126,7 +1126,7 @@ fn check_constraint(
                                     )),
                                 ]),
                         ),
-                        Some(Tag::Range { .. }) => diagnostics.push(
+                        Some(Tag::Range { .. } | Tag::Other { .. }) => diagnostics.push(
                             Diagnostic::error()
                                 .with_code(ErrorCode::E42)
                                 .with_message(format!("enum tag `{tag_id}` defines a range"))
@@ -1424,8 +1424,8 @@ fn check_fixed_fields(file: &File, scope: &Scope) -> Result<(), Diagnostics> {
                             .with_notes(vec!["hint: expected enum identifier".to_owned()]),
                     ),
                     Some(enum_decl @ Decl { desc: DeclDesc::Enum { tags, .. }, .. }) => {
-                        if !tags.iter().any(|tag| tag.id() == tag_id) {
-                            diagnostics.push(
+                        match tags.iter().find(|tag| tag.id() == tag_id) {
+                            None => diagnostics.push(
                                 Diagnostic::error()
                                     .with_code(ErrorCode::E34)
                                     .with_message(format!("undeclared tag identifier `{tag_id}`"))
@@ -1433,7 +1433,18 @@ fn check_fixed_fields(file: &File, scope: &Scope) -> Result<(), Diagnostics> {
                                         field.loc.primary(),
                                         enum_decl.loc.secondary(),
                                     ]),
-                            )
+                            ),
+                            Some(Tag::Range { .. } | Tag::Other { .. }) => diagnostics.push(
+                                Diagnostic::error()
+                                    .with_code(ErrorCode::E42)
+                                    .with_message(format!("enum tag `{tag_id}` defines a range"))
+                                    .with_labels(vec![
+                                        field.loc.primary(),
+                                        enum_decl.loc.secondary(),
+                                    ])
+                                    .with_notes(vec!["hint: expected enum tag with value".to_owned()]),
+                            ),
+                            Some(Tag::Value { .. }) => (),
                         }
                     }
                     Some(decl) => diagnostics.push(
